@@ -5,6 +5,7 @@
 
 #include <linux/futex.h>
 #include <pthread.h>
+#include <sys/mman.h>
 #include <sys/syscall.h>
 #include <unistd.h>
 
@@ -45,10 +46,23 @@ Stats st;
 // NOTE: no std:: templates in this file.  Template instantiations are COMDAT and the linker may pick
 // the copy compiled with coverage/TSan instrumentation from a harness TU, which would re-enter the
 // scheduler from inside itself.
-template <class T> struct Vec {   // local, internal-linkage growable array (anonymous namespace)
-  T* p = nullptr; size_t n = 0, cap = 0;
+// Chunked, mmap-backed, never moved or freed: libc realloc/memcpy are intercepted by TSan even when called
+// from this uninstrumented file, and would be reported as races on the simulator's own bookkeeping.
+template <class T> struct Vec {
+  static constexpr size_t CH = 1 << 14;
+  T* chunk[1 << 12] = {nullptr}; size_t n = 0;
   void clear() { n = 0; }
-  void push(const T& v) { if (n == cap) { cap = cap ? cap * 2 : 256; p = (T*)realloc(p, cap * sizeof(T)); if (!p) abort(); } p[n++] = v; }
+  T& at(size_t i) { return chunk[i / CH][i % CH]; }
+  void push(const T& v) {
+    size_t c = n / CH;
+    if (c >= (1 << 12)) abort();
+    if (!chunk[c]) {
+      void* m = mmap(nullptr, CH * sizeof(T), PROT_READ | PROT_WRITE, MAP_PRIVATE | MAP_ANONYMOUS, -1, 0);
+      if (m == MAP_FAILED) abort();
+      chunk[c] = (T*)m;
+    }
+    chunk[c][n % CH] = v; n++;
+  }
 };
 Vec<Decision> rec;
 const Decision* rp = nullptr; size_t rp_n = 0, rp_i = 0; bool replaying = false; uint64_t rp_skipped = 0;
@@ -60,6 +74,8 @@ Ev ring[RING]; uint64_t nev = 0;
 Vec<Ev> fulllog;
 Vec<const void*> ids;
 
+// not libc memset: TSan intercepts it even from this uninstrumented file
+inline void zero(void* p, size_t n) { volatile char* c = (volatile char*)p; for (size_t i = 0; i < n; i++) c[i] = 0; }
 inline void fpost(int* w) {
   __atomic_store_n(w, 1, __ATOMIC_SEQ_CST);
   syscall(SYS_futex, w, FUTEX_WAKE_PRIVATE, 1, 0, 0, 0);
@@ -267,7 +283,8 @@ Stats stats() {
   return s;
 }
 void set_replay(const Decision* d, size_t n) { rp = d; rp_n = n; }
-size_t decisions(const Decision** d) { *d = rec.p; return rec.n; }
+size_t ndecisions() { return rec.n; }
+Decision decision_at(size_t i) { return rec.at(i); }
 
 void begin(const Config& c) {
   cfg = c;
@@ -276,10 +293,10 @@ void begin(const Config& c) {
   for (int i = 0; i < 8; i++) rnd();
   opp = nseq = write_epoch = noprog = now = bb_total = 0; nev = 0;
   thash = 0xcbf29ce484222325ULL;
-  memset(&st, 0, sizeof st);
+  zero(&st, sizeof st);
   rec.clear(); fulllog.clear(); ids.clear();
   replaying = rp != nullptr; rp_i = 0; rp_skipped = 0;
-  memset(ths, 0, sizeof ths);
+  zero(ths, sizeof ths);
   nth = 1; n_run = 0;
   ths[0].id = 0; set_state(ths[0], RUN); ths[0].joined = true;
   tl_id = 0;
@@ -398,7 +415,7 @@ int spawn(void (*fn)(void*), void* arg) {
   if (!active()) { fprintf(stderr, "vsim: thread spawned outside a simulation run\n"); abort(); }
   if (nth >= MAXT) fail("harness", "too many simulated threads");
   Th* t = &ths[nth];
-  memset(t, 0, sizeof *t);
+  zero(t, sizeof *t);
   t->id = nth; t->fn = fn; t->arg = arg;
   if (cfg.policy == P_PCT && !replaying) t->prio = 1000 + (int)(rnd() % 1000);
   nth++;
@@ -444,7 +461,7 @@ void sleep_ns(uint64_t ns) {
 int object_id(const void* obj) {
   // first-seen order: for human eyes only, never hashed, never used in a decision
   if (!obj) return 0;
-  for (size_t i = 0; i < ids.n; i++) if (ids.p[i] == obj) return (int)i + 1;
+  for (size_t i = 0; i < ids.n; i++) if (ids.at(i) == obj) return (int)i + 1;
   ids.push(obj);
   return (int)ids.n;
 }
@@ -461,7 +478,7 @@ void dump_log(int fd) {
     if (n > 0 && write(fd, b, (size_t)n) < 0) {}
   };
   if (cfg.keep_log) {
-    for (size_t i = 0; i < fulllog.n; i++) emit(fulllog.p[i]);
+    for (size_t i = 0; i < fulllog.n; i++) emit(fulllog.at(i));
   } else {
     uint64_t b0 = nev > RING ? nev - RING : 0;
     for (uint64_t i = b0; i < nev; i++) emit(ring[i % RING]);
